@@ -14,6 +14,13 @@ try:
 except Exception as e:
     ok = False; print('MANIFEST INVALID', str(e)[:300])
 m = json.load(open('/verif/MANIFEST.json'))
+for c in m['checks']:
+    try:
+        e = json.load(open(c['evidence_file']))
+        if e['level'] != c['level_claimed']['category']:
+            ok = False; print(c['property_id'], 'evidence level', e['level'], '!= manifest category', c['level_claimed']['category'])
+    except Exception as ex:
+        ok = False; print(c['property_id'], 'no evidence', ex)
 ids = [c['property_id'] for c in m['checks']] + [c['property_id'] for c in m.get('not_applicable', [])]
 props = [json.loads(l)['id'] for l in open('/verif/properties.jsonl') if l.strip()]
 if sorted(ids) != sorted(props):
